@@ -737,7 +737,9 @@ def _run_helper(ctx, case):
     ctx.count("helper_reported_%s" % ("0" if reported == 0 else "pos"))
     if reported != k:
         _viol(ctx, f"helper-sample-count:{hname}", f"{hname} reports {reported} held samples for initial_sample_cnt={k}", case)
-    # the two op sequences from the Lean model: what the code does, and the repaired helper
+    # two op sequences from the Lean model: `helperOps` (what the helpers do: update unconditionally after the
+    # clear) = the specification, and `helperOpsConditional` (the pre-fix code: update only with initial
+    # samples), used only to say in the violation detail whether a stale model matches that regression
     tb = ";".join(",".join(map(str, b)) for b in train_batches)
     hasinit = "1" if k > 0 else "0"
     if cls == "mlist":
@@ -779,13 +781,10 @@ def _run_helper(ctx, case):
         detail = {"stale_state": bool(stale_state), "stale_prediction": bool(stale_pred)}
         if pred[0] == "ok" and code not in ("E",) and pred[1].size == T * m:
             cmu, ccov, _ = _parse_pred(code, T)
-            detail["matches_model_of_code"] = bool(_close(pred[1].reshape(T, m), cmu))
+            detail["matches_conditional_update_sequence"] = bool(_close(pred[1].reshape(T, m), cmu))
         _viol(ctx, key, what, case, detail=detail)
     else:
         # up to date: the usual comparison (shape, mean, covariance) against the exact posterior
-        _check_pred(ctx, hcase if False else case, "helper", cname, pred, spec, T, m, tables,
-                    what=f" (model returned by {hname})")
-        if code != spec:
-            ctx.count("helper_lean_code_model_differs_from_real_info")
+        _check_pred(ctx, case, "helper", cname, pred, spec, T, m, tables, what=f" (model returned by {hname})")
     _check_lsvar(ctx, case, model, cname)
     ctx.case_done(case, True)
